@@ -8,7 +8,7 @@ use crate::with_d;
 use serde::{Deserialize, Serialize};
 use std::time::Instant;
 
-pub const RULE: &str = "cases = arbitrary multigraphs (as C03) with positive finite weights; in half of them one weight is moved so that the omega of a randomly chosen proper subset sits at +-k/64, +-1e-6, 0 or 1e-4. oracle: exact rational omega of every proper non-empty subset: any < -1e-9 => Err required, all > 1e-9 => Ok required with every J finite and > 0, otherwise either; any panic is a violation; the graph is built three times in-process (different hash seeds) and the serialised tables must be byte-identical (thorough: also in a fresh process). non-trivial = E>=3 and the subset with the smallest omega has at least two edges; distinct = distinct graph encodings";
+pub const RULE: &str = "(besides the single graphs described next: families of sibling graphs as in C03 - a base graph, copies differing in exactly one attribute, the base again - built one after the other on one thread, each member checked by the same oracle) cases = arbitrary multigraphs (as C03) with positive finite weights; in half of them one weight is moved so that the omega of a randomly chosen proper subset sits at +-k/64, +-1e-6, 0 or 1e-4. oracle: exact rational omega of every proper non-empty subset: any < -1e-9 => Err required, all > 1e-9 => Ok required with every J finite and > 0, otherwise either; any panic is a violation; the graph is built three times in-process (different hash seeds) and the serialised tables must be byte-identical (thorough: also in a fresh process). non-trivial = E>=3 and the subset with the smallest omega has at least two edges; distinct = distinct graph encodings";
 
 #[derive(Clone, Debug, Serialize, Deserialize)]
 pub struct Case {
@@ -132,14 +132,34 @@ pub fn table_string(g: &G) -> String {
     with_d!(g.d, f(g))
 }
 
+pub fn gen_family(t: &mut Tape, tier: Tier) -> Option<super::family::Family> {
+    super::family::gen_family(t, tier, 9)
+}
+pub fn check_family(f: &super::family::Family, ctx: &mut Ctx) -> Result<(), Failure> {
+    super::family::check_family(f, ctx, &|g: &G, c: &mut Ctx| check(&Case { g: g.clone(), pushed: None }, c))
+}
+#[derive(Clone, Debug, Serialize, Deserialize)]
+#[serde(untagged)]
+pub enum Any {
+    Fam(super::family::Family),
+    One(Case),
+}
+pub fn check_any(c: &Any, ctx: &mut Ctx) -> Result<(), Failure> {
+    match c {
+        Any::Fam(f) => check_family(f, ctx),
+        Any::One(g) => check(g, ctx),
+    }
+}
 pub fn run(tier: Tier, seed: u64) -> i32 {
     let t0 = Instant::now();
     let sp = Spec { id: "C05", rule: RULE, tape_len: 180, cases: tier.pick(60_000, 800_000), gen: gen_case, check, max_shrink_iters: 4000, shards: 16 };
     let mut stats = engine::run_spec(&sp, tier, seed);
-    engine::run_regressions::<Case>("C05", check, &mut stats);
+    let spf = Spec { id: "C05", rule: RULE, tape_len: 220, cases: tier.pick(16_000, 160_000), gen: gen_family, check: check_family, max_shrink_iters: 2000, shards: 16 };
+    stats.merge(engine::run_spec(&spf, tier, seed ^ 0xfa5));
+    engine::run_regressions::<Any>("C05", check_any, &mut stats);
     let extra = crate::props::xproc::cross_process_tables(tier, seed, &mut stats);
     engine::finish("C05", tier, seed, RULE, stats, t0, extra, &["exact rational omega from the reference model", "determinism across hash seeds sampled by repeated in-process builds (ahash RandomState differs per instance) and one fresh process"])
 }
 pub fn replay(path: &str) -> i32 {
-    engine::replay_file::<Case>("C05", path, check)
+    engine::replay_file::<Any>("C05", path, check_any)
 }
